@@ -97,7 +97,7 @@ def run(tier, seed, extra):
     rng = random.Random(seed)
     t0 = time.time()
     cnt = 0
-    names = ["alpha", "beta-two", "g3", "my-target"]
+    names = ["alpha", "beta-two", "g3", "my-target", "MixedCase", "UPPER-x"]
     for k, name in enumerate(names):
         for t in targets(k, name):
             for lt in ("", "explicit *text*".replace("*", "")):
